@@ -85,6 +85,17 @@ def jobs(tier):
 
 def replayer(res):
     """native replay of a counterexample scalar against the textbook reference [k]P1"""
+    if res.name.endswith("_mod_n_mul_barrett") and isinstance(res.ce, dict):
+        try:
+            a = sum(int(str(res.ce["a%d" % i]), 16) << (64 * i) for i in range(4)); b = sum(int(str(res.ce["b%d" % i]), 16) << (64 * i) for i in range(4))
+        except Exception:  # noqa
+            return None
+        from core import native
+        got = native("sm9_mod_n_mul", "%064x" % a, "%064x" % b)
+        if got is None:
+            return None
+        exp = "ok:%064x" % (a * b % N9)
+        return {"reproduced": got != exp, "a": "%064x" % a, "b": "%064x" % b, "library": got, "reference": exp}
     which = {"L4_sm9_point_mul_all_scalars": "sm9_point_mul", "L4_sm9_g_mul_all_scalars": "sm9_g_mul"}.get(res.name)
     if which is None or not isinstance(res.ce, dict):
         return None
